@@ -6,7 +6,7 @@ export GOFLAGS=-mod=mod GOPROXY=off GOSUMDB=off GOTOOLCHAIN=local
 mkdir -p work evidence replays
 cp /repo/go.sum harness/go.sum
 (cd harness && go build -o ../work/factgen ./cmd/factgen && go build -tags verif -o ../work/corr .)
-rm -f lean/Generated/*.lean
+mkdir -p lean/Generated; rm -f lean/Generated/*.lean
 ./work/factgen -repo /repo -out lean/Generated -sigs work/sigs.json
 # models + driver must build; proof modules are pre-built here to warm the cache, and each
 # property's own check re-builds and audits its module (a failure there is reported by that check)
